@@ -94,6 +94,8 @@ inductive Tok
   | close (name : Str)
   /-- `<name attrs trail/>` -/
   | selfClose (name : Str) (attrs : List Attr) (trail : Str)
+  /-- a bare `<` or `&` that is plain text because of the character behind it (`1 < 2`, `a & b`) -/
+  | bare (c : Char)
 deriving Repr
 
 def Tok.render : Tok → Str
@@ -104,6 +106,7 @@ def Tok.render : Tok → Str
   | .open_ n as tr => '<' :: n ++ afterName as tr ++ ['>']
   | .close n => '<' :: '/' :: n ++ ['>']
   | .selfClose n as tr => '<' :: n ++ afterName as tr ++ ['/', '>']
+  | .bare c => [c]
 
 /-- source text of a token sequence -/
 def renderToks : List Tok → Str
@@ -126,6 +129,16 @@ def isText : Tok → Bool
   | .text _ => true
   | _ => false
 
+def isBare : Tok → Bool
+  | .bare _ => true
+  | _ => false
+
+/-- what may stand behind a bare `<` (anything but a letter, `/`, `!`, `?`: those start tags, comments, processing
+    instructions, declarations) or a bare `&` (anything but a letter or `#`: those start references) -/
+def bareFollow (c d : Char) : Bool :=
+  if c = '<' then !isAsciiAlpha d && d != '/' && d != '!' && d != '?'
+  else !isAsciiAlpha d && d != '#'
+
 /-- `"script"`, `"style"`: their content is tokenized in another mode (outside the fragment) -/
 def cdataNames : List Str := [['s', 'c', 'r', 'i', 'p', 't'], ['s', 't', 'y', 'l', 'e']]
 
@@ -139,12 +152,20 @@ def Tok.ok : Tok → Bool
   | .selfClose n as tr =>
     nameOk n && as.all Attr.ok && spacesOk tr &&
       (!tr.isEmpty || (as.getLast?.map (fun a => !a.val.isBare)).getD true)
+  | .bare c => c = '<' || c = '&'
 
-/-- every token is well-formed and no two text runs are adjacent (a text run is maximal) -/
+/-- a bare `<` / `&` must be followed by a token whose first character keeps it bare -/
+def followOk (t u : Tok) : Bool :=
+  match t with
+  | .bare c => (u.render.head?.map (bareFollow c)).getD false
+  | _ => true
+
+/-- every token is well-formed, no two text runs are adjacent (a text run is maximal), a bare `<` / `&` is followed
+    by a character that keeps it bare (so it is never the last token) -/
 def toksOk : List Tok → Bool
   | [] => true
-  | [t] => t.ok
-  | t :: u :: r => t.ok && !(isText t && isText u) && toksOk (u :: r)
+  | [t] => t.ok && !isBare t
+  | t :: u :: r => t.ok && !(isText t && isText u) && followOk t u && toksOk (u :: r)
 
 /-! ### the tag stack -/
 
@@ -196,5 +217,6 @@ def inlineTok : Tok → Bool
   | .open_ n _ _ => !isBlockLevelTag (lower n)
   | .close _ => true
   | .selfClose n _ _ => !isBlockLevelTag (lower n)
+  | .bare _ => true
 
 end MdVerif.HtmlFrag
